@@ -160,6 +160,10 @@ def NPIECE(key="pieces"):
     return len(P.get(key) or P.get("pieces") or PIECES)
 
 
+def _pidx(table, *pieces):
+    return [table.index(PIECES.index(p)) for p in pieces]
+
+
 def _pieces(idx, key="pieces"):
     table = P.get(key) or P.get("pieces")
     return [PIECES[table[i]] if table else PIECES[i] for i in idx]
@@ -554,7 +558,7 @@ def plural_count_ok(n: int, t: int, k: int) -> bool:
 
 # ------------------------------------------------------------------------------------------------ conditions
 def _sel(dom, **kw):
-    """selector list choosing the given table values inside a condition's domains"""
+    """positions inside a condition's domains of the given table values"""
     out = []
     for dim in DIMS:
         d = dom.get(dim) or list(range(FULL[dim]))
@@ -562,91 +566,154 @@ def _sel(dom, **kw):
     return out
 
 
-def _pidx(table, *pieces):
-    return [table.index(PIECES.index(p)) for p in pieces]
+def _reaches(param, args):
+    """True when a concrete argument tuple reaches the oracle comparison (well-formed, not excluded)."""
+    setup(param)
+    d = _decode(args[2:])
+    s = _pieces(_unrank(args[0], NP1, LS))
+    p = _pieces(_unrank(args[1], NP2, LP), "ppieces")
+    if PLZ[d["plz"]] is None and p:
+        return False
+    exp = model(d["ctx"], d["trim"], bool(d["policy"]), d["decl"], d["plz"], s, p, dict(FREE, x=XV[d["x"]], n=NV[d["n"]]), AES[d["ae"]]["eff"])
+    if exp is None:
+        return False
+    return not KNOWN_PERCENT(d["install"], d["decl"], s, p if exp[2] else [], exp[3])
+
+
+def _size(param):
+    n = _nseq(len(param["pieces"]), param["ls"]) * _nseq(len(param["ppieces"]), param["lp"])
+    for dim in DIMS:
+        n *= len(param["dom"][dim])
+    return n
+
+
+def _split(name, param, limit):
+    """Split a selector space that is too large for one condition along its largest dimensions."""
+    if _size(param) <= limit:
+        return [(name, param)]
+    dim = max((d for d in DIMS if len(param["dom"][d]) > 1), key=lambda d: len(param["dom"][d]), default=None)
+    if dim is None:
+        return [(name, param)]
+    vals = param["dom"][dim]
+    halves = [vals[: (len(vals) + 1) // 2], vals[(len(vals) + 1) // 2:]]
+    out = []
+    for h in halves:
+        sub = dict(param, dom=dict(param["dom"], **{dim: h}))
+        out.extend(_split(f"{name}/{dim}={h}", sub, limit))
+    return out
+
+
+def _witnesses(name, param, k=4):
+    """k deterministic pseudo-random points of the space that reach the oracle comparison."""
+    import random
+    import zlib
+
+    rnd = random.Random(zlib.crc32(name.encode()))
+    sizes = [_nseq(len(param["pieces"]), param["ls"]), _nseq(len(param["ppieces"]), param["lp"])] + [len(param["dom"][d]) for d in DIMS]
+    out = []
+    for _ in range(400):
+        args = [rnd.randrange(n) for n in sizes]
+        if rnd.random() < 0.5:
+            args[0] = sizes[0] - 1 - rnd.randrange(max(1, sizes[0] // 2))     # prefer long bodies
+        if args not in out and _reaches(param, args):
+            out.append(args)
+            if len(out) == k:
+                break
+    return out
 
 
 def conditions(tier, seed):
     th = tier == "thorough"
     to = 300 if th else 60
+    limit = 5000 if th else 1000
     out = []
     pi = {p: i for i, p in enumerate(PIECES)}
     T = lambda s: pi[("t", s)]    # noqa: E731
     V = lambda s: pi[("v", s)]    # noqa: E731
     show = lambda tab: [PIECES[i][1] if PIECES[i][0] == "t" else "{{ %s }}" % PIECES[i][1] for i in tab]    # noqa: E731
 
-    def cond(name, dom, pieces, ppieces, ls, lp, wit, bounds):
-        wit = [[rank(w[0], len(pieces)), rank(w[1], len(ppieces))] + list(w[2]) for w in wit]
-        out.append(Cond(name, "block_ok", mode="B", param=dict(dom=dom, pieces=pieces, ppieces=ppieces, ls=ls, lp=lp), timeout=to, witnesses=wit, bounds=bounds))
+    def describe(dom):
+        return (f"context {[CTXS[i] for i in dom['ctx']]}; modifier {[TRIMS[i] for i in dom['trim']]}; trimmed policy {[bool(i) for i in dom['policy']]}; "
+                f"declared {[', '.join(n if e is None else n + '=' + e for n, e, _k in DECLS[i]) for i in dom['decl']]}; pluralize {[PLZ[i] for i in dom['plz']]}; "
+                f"x in {[XV[i] for i in dom['x']]!r}; n in {[NV[i] for i in dom['n']]}; install {[INSTALLS[i] for i in dom['install']]}; "
+                f"autoescape variants {dom['ae']}")
+
+    def cond(name, dom, pieces, ppieces, ls, lp, extra_wit=()):
+        param0 = dict(dom=dom, pieces=pieces, ppieces=ppieces, ls=ls, lp=lp)
+        for nm, param in _split(name, param0, limit):
+            wit = _witnesses(nm, param)
+            for w in extra_wit:      # hand-written regression samples: (sing pieces, plur pieces, table values)
+                try:
+                    args = [rank(_pidx(pieces, *w[0]), len(pieces)), rank(_pidx(ppieces, *w[1]), len(ppieces))] + _sel(param["dom"], **w[2])
+                except ValueError:
+                    continue         # not inside this part of the split
+                if args not in wit and _reaches(param, args):
+                    wit.append(args)
+            out.append(Cond(nm, "block_ok", mode="B", param=param, timeout=to, witnesses=wit,
+                            bounds=f"singular body <= {ls} pieces from {show(pieces)!r}, plural body <= {lp} pieces from {show(ppieces)!r}; " + describe(param["dom"])))
 
     # --- F1: text fidelity / percent signs / trimming: text pieces x style x declared variables, without and with plural
-    txt = [T(s) for s in TEXTS] + [V("a"), V("b"), V("count")]
-    if not th:
-        txt = [T(s) for s in ["x", " ", "\n", " \n\t ", "%", "%%", "%(a)s", "%s", "{x}", "}", "<b>", "  y"]] + [V("a"), V("count")]
-    ptxt = txt if th else [T("%"), T("%%"), T("%(a)s"), T("x"), T("\n"), V("a"), V("count")]
-    style_sets = [(0, 1), (4, 3), (5, 2, 6)] if th else [(0, 1)]
+    txt_small = [T(s) for s in ["x", " ", "\n", " \n\t ", "%", "%%", "%(a)s", "%s", "{x}", "}", "<b>", "  y"]] + [V("a"), V("count")]
+    txt_full = [T(s) for s in TEXTS] + [V("a"), V("b"), V("count")]
+    ptxt = [T("%"), T("%%"), T("%(a)s"), T("x"), T("\n"), V("a"), V("count")] + ([T(" \n\t "), T("%s"), T("{x}")] if th else [])
+    style_sets = [[0, 1], [4, 3], [5, 2, 6]] if th else [[0, 1]]
     for trim_dom, pol in ([([0], 0), ([0], 1), ([1, 4], 0), ([2, 3], 1)] if th else [([0, 1], 0), ([2], 1), ([4], 0)]):
         for st in style_sets:
-            dom = dict(ctx=[0], trim=trim_dom, policy=[pol], decl=[0, 1], plz=[0], x=[1], n=[0], install=list(st), ae=[pol])
-            ls = 3 if th else 2
-            wit = [[_pidx(txt, ("t", "%"), ("v", "a")), [], _sel(dom, install=st[0])],
-                   [_pidx(txt, ("t", " \n\t "), ("t", "x")), [], _sel(dom, install=st[1], trim=trim_dom[-1], decl=1)],
-                   [_pidx(txt, ("t", "%(a)s"), ("t", "{x}")), [], _sel(dom, install=st[-1], decl=0)]]
-            cond(f"text[trim={trim_dom},policy={pol},install={list(st)}]", dom, txt, txt, ls, 0, wit,
-                 f"body of <= {ls} pieces from {show(txt)!r}; modifiers {[TRIMS[i] for i in trim_dom]}, policy {bool(pol)}; declared none / a=x; "
-                 f"installs {[INSTALLS[i] for i in st]}; autoescape {bool(pol)}")
-            for decl_dom in ([[2, 3], [8, 9]] if th else [[3]]):
-                dom = dict(ctx=[0], trim=trim_dom if th else trim_dom[-1:], policy=[pol], decl=decl_dom, plz=[1], x=[1], n=[0, 1], install=list(st), ae=[pol])
-                ls, lp = (2, 2) if th else ((1, 2) if pol == 0 and trim_dom[-1] == 1 else (1, 1))
-                wit = [[_pidx(ptxt, ("t", "%")), _pidx(ptxt, ("t", "%%"), ("v", "a"))[:lp], _sel(dom, install=st[0], n=0)],
-                       [_pidx(ptxt, ("v", "count")), _pidx(ptxt, ("t", "%(a)s")), _sel(dom, install=st[1], n=1, trim=trim_dom[-1])],
-                       [[], _pidx(ptxt, ("t", "\n"), ("t", "x"))[:lp], _sel(dom, install=st[-1], n=0, decl=decl_dom[-1])]]
-                cond(f"text+plural[trim={trim_dom},policy={pol},decl={decl_dom},install={list(st)}]", dom, ptxt, ptxt, ls, lp, wit,
-                     f"singular body <= {ls}, plural body <= {lp} pieces from {show(ptxt)!r}; counter 1/0; modifiers {[TRIMS[i] for i in trim_dom]}, policy {bool(pol)}; "
-                     f"declared {[DECLS[i] for i in decl_dom]}; installs {[INSTALLS[i] for i in st]}; autoescape {bool(pol)}")
+            main = st == [0, 1]
+            dom = dict(ctx=[0], trim=trim_dom, policy=[pol], decl=[0, 1], plz=[0], x=[1], n=[0], install=st, ae=[pol])
+            wit = [([("t", "%"), ("v", "a")], [], dict(install=st[0])), ([("t", " \n\t "), ("t", "x")], [], dict(install=st[1], trim=trim_dom[-1], decl=1)),
+                   ([("t", "%(a)s"), ("t", "{x}")], [], dict(install=st[-1], decl=0))]
+            if th:
+                cond(f"text[all pieces,trim={trim_dom},policy={pol},install={st}]", dom, txt_full, txt_full, 2, 0, wit)
+            if main:
+                cond(f"text[trim={trim_dom},policy={pol},install={st}]", dom, txt_small, txt_small, 3 if th else 2, 0, wit)
+            for decl_dom in ([[2, 3], [8, 9]] if th and main else [[3]]):
+                dom = dict(ctx=[0], trim=trim_dom if th else trim_dom[-1:], policy=[pol], decl=decl_dom, plz=[1], x=[1], n=[0, 1], install=st, ae=[pol])
+                ls, lp = ((1, 2) if main else (1, 1)) if th else ((1, 2) if pol == 0 and trim_dom[-1] == 1 else (1, 1))
+                cond(f"text+plural[trim={dom['trim']},policy={pol},decl={decl_dom},install={st}]", dom, ptxt, ptxt, ls, lp,
+                     [([("t", "%")], [("t", "%%"), ("v", "a")][:lp], dict(install=st[0], n=0)), ([("v", "count")], [("t", "%(a)s")], dict(install=st[1], n=1)),
+                      ([], [("t", "\n"), ("t", "x")][:lp], dict(install=st[-1], n=0, decl=decl_dom[-1]))])
 
     # --- F2: counters: declared variables x pluralize x counter value x references in both bodies
     refs = [V("count"), V("num"), V("a"), V("n"), T("x")] + ([T("%")] if th else [])
+
     def well_formed(plz):   # declaration lists for which the block is well-formed (others are skipped by the model anyway)
         return [i for i, d in enumerate(DECLS) if PLZ[plz][0] == "" or PLZ[plz][0] in [n for n, _e, _k in d]]
+
     for plz in range(1, len(PLZ)):
-        for st in ([(0, 1), (4, 5, 6), (2, 3)] if th else [(0, 1)]):
+        for st in ([[0, 1], [4, 5, 6], [2, 3]] if th else [[0, 1]]):
             for cx in ([[0], [1]] if th else [[1] if plz == 3 else ([0, 1] if plz == 5 else [0])]):
-                dom = dict(ctx=cx, trim=[0], policy=[0], decl=well_formed(plz), plz=[plz], x=[1] if not th else [1, 4],
-                           n=[0, 1] if not th and plz != 5 else [0, 1, 2, 3], install=list(st), ae=[1])
-                d_ok = [i for i in well_formed(plz) if DECLS[i]]
-                wit = [[[0], [1], _sel(dom, decl=d_ok[0], n=0, install=st[0])], [[1], [2], _sel(dom, decl=d_ok[-1], n=1, install=st[1])],
-                       [[3], [4], _sel(dom, decl=d_ok[len(d_ok) // 2], n=1, install=st[0], ctx=cx[-1])]]
-                cond(f"counter[plz={PLZ[plz]},ctx={cx},install={list(st)}]", dom, refs, refs, 2 if th else 1, 1, wit,
-                     f"declaration lists {[DECLS[i] for i in dom['decl']]} x pluralize {PLZ[plz]} x counter values {[NV[i] for i in dom['n']]} x singular/plural bodies from {show(refs)!r}; "
-                     f"contexts {[CTXS[c] for c in cx]}; installs {[INSTALLS[i] for i in st]}; autoescape on")
+                dom = dict(ctx=cx, trim=[0], policy=[0], decl=well_formed(plz), plz=[plz], x=[1, 4] if th and st == [0, 1] else [1],
+                           n=[0, 1] if not th and plz != 5 else [0, 1, 2, 3], install=st, ae=[1])
+                cond(f"counter[plz={PLZ[plz]},ctx={cx},install={st}]", dom, refs, refs, 1, 1,
+                     [([("v", "count")], [("v", "num")], dict(n=0, install=st[0])), ([("v", "num")], [("v", "a")], dict(n=1, install=st[1])),
+                      ([("v", "n")], [("t", "x")], dict(n=1, install=st[0], ctx=cx[-1]))])
 
     # --- F3: escaping: value table x every autoescape variant x every install x declared/free reference x plural or not
     for install in range(len(INSTALLS)):
+        new = INSTALLS[install][1]
         for plz in ((0, 1) if th or install < 2 else (0,)):
             esc = [V("a"), V("num"), V("context"), T("<b>")] if th or not plz else [V("a"), V("num")]
-            dom = dict(ctx=[0, 2] if th or (install < 2 and not plz) else [0], trim=[0], policy=[0], decl=[1, 5] if plz == 0 else ([3, 6] if th else [3]), plz=[plz],
+            dom = dict(ctx=[0, 2] if th or (install in (0, 1, 5) and not plz) else ([2] if new else [0]), trim=[0], policy=[0],
+                       decl=[1, 5] if plz == 0 else [3], plz=[plz],
                        x=list(range(len(XV))) if th or (install < 2 and not plz) else ([1, 2] if plz else [1, 2, 3, 4]), n=[0, 1] if plz else [0], install=[install],
                        ae=list(range(len(AES))))
-            wit = [[[0], ([1] if plz else []), _sel(dom, x=1, ae=1)], [[1], ([0] if plz else []), _sel(dom, x=2, ae=8, ctx=dom["ctx"][-1])],
-                   [[len(esc) - 2], ([len(esc) - 1] if plz else []), _sel(dom, x=1 if plz and not th else 3, ae=3)], [[0], ([0] if plz else []), _sel(dom, x=1, ae=10)]]
-            cond(f"escape[install={INSTALLS[install]},plz={PLZ[plz]}]", dom, esc, esc, 2 if th else 1, 1 if plz else 0, wit,
-                 f"values {[XV[i] for i in dom['x']]!r} x {len(AES)} autoescape variants (env flag, select_autoescape by template name, autoescape blocks with constant and "
-                 f"runtime flag) x contexts {[CTXS[c] for c in dom['ctx']]} x bodies from {show(esc)!r}; install {INSTALLS[install]}")
+            cond(f"escape[install={INSTALLS[install]},plz={PLZ[plz]}]", dom, esc, esc, 2 if th and not plz else 1, 1 if plz else 0,
+                 [([("v", "a")], [("v", "num")] if plz else [], dict(x=1, ae=1)), ([("v", "num")], [("v", "a")] if plz else [], dict(x=2, ae=8, ctx=dom["ctx"][-1])),
+                  ([("v", "a")], [("v", "a")] if plz else [], dict(x=1, ae=10)), ([("v", "a")], [("v", "a")] if plz else [], dict(x=2, ae=3))])
 
     # --- F4: trimmed policy x modifier x position x whitespace shapes, with extraction under the same policy
     ws = [T(" "), T("\n"), T(" \n\t "), T("x"), V("a")] + ([T("  y")] if th else [])
     for st in ([0, 1, 4, 5] if th else [0, 1]):
-        dom = dict(ctx=[0, 1] if th else [st], trim=list(range(len(TRIMS))), policy=[0, 1], decl=[0, 1] if th else [1], plz=[0], x=[5], n=[0], install=[st], ae=[0])
-        L = 4 if th else 3
-        wit = [[[1, 3, 2, 4][:L], [], _sel(dom, trim=1, policy=0)], [[2, 4, 1][:L], [], _sel(dom, trim=0, policy=1)],
-               [[0, 3, 1][:L], [], _sel(dom, trim=4, policy=1)]]
-        cond(f"trim[install={INSTALLS[st]}]", dom, ws, ws, L, 0, wit,
-             f"bodies of <= {L} pieces from {show(ws)!r} x all modifiers/positions {TRIMS} x policy on/off; value of x contains a line break; install {INSTALLS[st]}")
+        dom = dict(ctx=[st % 2], trim=list(range(len(TRIMS))), policy=[0, 1], decl=[0, 1] if th else [1], plz=[0], x=[5], n=[0], install=[st], ae=[0])
+        L = 4 if th and st < 2 else 3
+        cond(f"trim[install={INSTALLS[st]}]", dom, ws, ws, L, 0,
+             [([("t", "\n"), ("t", "x"), ("t", " \n\t ")], [], dict(trim=1, policy=0)), ([("t", " \n\t "), ("v", "a"), ("t", "\n")], [], dict(trim=0, policy=1)),
+              ([("t", " "), ("t", "x"), ("t", "\n")], [], dict(trim=4, policy=1))])
 
     # --- F5: direct gettext calls: extraction covers every recorded message
     dom = dict(ctx=[0], trim=[0], policy=[0], decl=[0], plz=[0], x=[1], n=[0, 1, 2], install=[0, 1, 4, 5, 6], ae=[0, 1, 8] if not th else list(range(len(AES))))
-    out.append(Cond("calls", "call_ok", mode="B", param=dict(dom=dom), timeout=to,
+    out.append(Cond("calls", "call_ok", mode="B", param=dict(dom=dom, pieces=[0], ppieces=[0], ls=0, lp=0), timeout=to,
                     witnesses=[[0] + _sel(dom)[6:], [2] + _sel(dom, install=1, n=1)[6:], [16] + _sel(dom, install=4, ae=8)[6:], [18] + _sel(dom, install=5, n=2)[6:],
                                [17] + _sel(dom, install=4, n=2)[6:]],
                     bounds=f"{len(CALLS)} templates with gettext/_/ngettext/pgettext/npgettext calls on string literals (in if/for/macro/set/filter argument/"
@@ -657,4 +724,5 @@ def conditions(tier, seed):
                     witnesses=[[1, 0, 0], [0, 2, 4], [-7, 5, 11], [2 ** 70, 3, 7], [1, 4, 17]],
                     bounds=f"n: any int; {len(A_SRC)} pluralising blocks (counter not printed) x installs (callables/null/translations, old/new) x effective autoescape "
                            "(env flag, autoescape block, runtime flag)"))
+    setup(None)
     return out
